@@ -46,6 +46,39 @@ def translator_stage(ctx: Ctx):
     return {"tie_failed": out[-600:], "counterexamples": [(int(k), [int(x) for x in ns.split(";") if x.strip()]) for k, ns in cex][:5]}
 
 
+def sample_stage(ctx: Ctx):
+    """T: the sample-proportion arithmetic of estimate_u.py regenerated and tied (by conversion) to the
+    model functions on which C04_full_sample_when_enough_pairs is stated."""
+    from translators import c04_sample as T
+    try:
+        tr = T.translate()
+    except T.Untranslatable as e:
+        ctx.obligation("translate the sample-proportion formulae of estimate_u.py", False, str(e))
+        ctx.violation("estimate_u.py sample-proportion code no longer has a shape the translator understands: " + str(e),
+                      {"broken": "T c04_sample", "detail": str(e)}, {"estimator": "u", "failure": "translator"}, found_input=False)
+        return
+    ok, out = ctx.coqc_text("C04_sample", T.coq_text(tr))
+    ctx.checker_cmds.append("coqc gen/C04_sample.v (generated from estimate_u.py)")
+    ctx.cov["sample_proportion_generated"] = tr
+    if not ctx.obligation("generated rows_needed / proportion_link_only / sample_proportion are convertible with Model/Estimators.v", ok, out[-800:]):
+        ctx.violation("the sample-proportion formulae of estimate_u.py differ from the model (C04_full_sample_when_enough_pairs no longer applies to the code)",
+                      {"broken": "T c04_sample tie lemmas", "generated": tr, "coq": out[-600:]}, {"estimator": "u", "failure": "sample proportion"}, found_input=False)
+
+
+def zero_pairs_witness(ctx: Ctx, pterms, pmetas):
+    """a single record: no admissible pair, the estimator raises ZeroDivisionError (modelled as PriorZeroDivision)"""
+    for backend in ("duckdb", "sqlite"):
+        case = X.gen_case(__import__("random").Random("zero-pairs"), backend)
+        case["link_type"], case["tables"] = "dedupe_only", [case["tables"][0][:1]]
+        case["ops"] = []
+        obs = X.observed_matches(case)
+        impl = X.run_prior(case)
+        pterms.append(X.prior_term(case, obs, impl))
+        pmetas.append((case, obs, impl, X.prior_oracle(case, obs, impl)))
+        ctx.count_case(("zero-pairs", backend), False, {"backend": backend, "op": "prior", "tables": [1], "implementation": str(impl)})
+        ctx.hist("estimator", "prior (no admissible pair)")
+
+
 def features(case, kind, fails):
     return {"estimator": kind, "link_type": case["link_type"], "backend": case["backend"], "tables": len(case["tables"]),
             "failure": fails[0][0] if fails else "model-disagreement"}
@@ -96,6 +129,7 @@ def run(ctx: Ctx):
     if not ok:
         ctx.violation("theorems of Properties/C04.v no longer check", {"broken": "Properties/C04.v"}, found_input=False)
     tfail = translator_stage(ctx)
+    sample_stage(ctx)
 
     eterms, emetas, pterms, pmetas = [], [], [], []
     cases = []
@@ -135,10 +169,12 @@ def run(ctx: Ctx):
         pmetas.append((case, obs, impl, pf))
         ctx.count_case(json.dumps([case["tables"], case["prior_op"]], sort_keys=True, default=str), obs > 0,
                        {"backend": case["backend"], "link_type": case["link_type"], "op": "prior", "observed": obs, "recall": case["prior_op"]["recall"],
-                        "accepted": impl is not None})
+                        "accepted": impl is not None and impl != "ZD"})
         ctx.hist("estimator", "prior")
         ctx.hist("prior_accepted", impl is not None)
         ctx.hist("prior_rules", len(case["prior_op"]["rules"]))
+    if not ctx.replay:
+        zero_pairs_witness(ctx, pterms, pmetas)
     bad, errs = ctx.eval_cases("C04_est", X.HEADER, eterms, "est_case", shard=25)
     badp, errsp = ctx.eval_cases("C04_prior", X.HEADER, pterms, "prior_run", shard=100)
     for e in errs + errsp:
@@ -172,7 +208,7 @@ def run(ctx: Ctx):
         seen.add(key)
         found_prior_input = found_prior_input or bool(pf)
         ctx.violation("prior estimate: " + (pf[0][0] if pf else "implementation differs from the Gallina model"),
-                      {"case": dict(case, ops=[]), "observed_matches": obs, "implementation": None if impl is None else float(impl),
+                      {"case": dict(case, ops=[]), "observed_matches": obs, "implementation": None if impl is None else impl if impl == "ZD" else float(impl),
                        "property_oracle_failures": pf, "coq_model_disagrees": i in badp}, f, found_input=bool(pf))
     if tfail is not None and not found_prior_input:
         ctx.violation("calculate_cartesian no longer matches the model (tie lemma / translation failed)",
